@@ -28,29 +28,44 @@ impl ModelChecker {
         // Setup environment for model checker
         let sim = sys.sim();
 
-        let mc_net = McNetwork::new(sys.network());
+        let mut mc_net = McNetwork::new(sys.network());
 
         let trace = sys.logger().trace().clone();
         let trace_handler = Rc::new(RefCell::new(TraceHandler::new(trace)));
 
         let mut nodes: HashMap<String, McNode> = HashMap::new();
+        let mut crashed_nodes: HashSet<String> = HashSet::new();
         for node in sys.nodes() {
             let node = sys.get_node(&node).unwrap();
-            nodes.insert(
+            let mut mc_node = McNode::new(
                 node.name.clone(),
-                McNode::new(
-                    node.name.clone(),
-                    node.processes(),
-                    trace_handler.clone(),
-                    node.clock_skew(),
-                ),
+                node.processes(),
+                trace_handler.clone(),
+                node.clock_skew(),
             );
+            // a node crashed in simulation stays crashed (and disconnected) in model checking
+            if node.is_crashed() {
+                mc_node.crash();
+                mc_net.disconnect_node(&node.name);
+                crashed_nodes.insert(node.name.clone());
+            }
+            nodes.insert(node.name.clone(), mc_node);
         }
 
         let mut events = PendingEvents::new();
         for event in sim.dump_events() {
             cast!(match event.data {
-                MessageReceived { msg, src, dst, .. } => {
+                MessageReceived {
+                    msg,
+                    src,
+                    dst,
+                    dst_node,
+                    ..
+                } => {
+                    // messages sent to a crashed node after the crash are never delivered
+                    if crashed_nodes.contains(&dst_node) {
+                        continue;
+                    }
                     events.push(McEvent::MessageReceived {
                         msg,
                         src,
